@@ -349,6 +349,13 @@ func (rs *ResourceSubscription) unregister() {
 }
 
 func (rs *ResourceSubscription) processGetResponse(payload []byte, err error) (nrs *ResourceSubscription, sublist []Subscriber) {
+	// The resource may already have been loaded, together with all its
+	// subscribers, by the response to another query normalized to this one.
+	// Then this response is superfluous.
+	if rs.state > stateRequested {
+		return rs, nil
+	}
+
 	var result *codec.GetResult
 	// Either we have an error making the request
 	// or an error in the service's response
@@ -422,6 +429,15 @@ func (rs *ResourceSubscription) processGetResponse(payload []byte, err error) (n
 	// will already be updated by the response from the first request.
 	if nrs.state > stateRequested {
 		return
+	}
+
+	// If the normalized query was also requested, its own response is no
+	// longer needed. Its waiting subscribers are loaded by this response.
+	if nrs != rs {
+		sublist = make([]Subscriber, 0, len(nrs.subs))
+		for sub := range nrs.subs {
+			sublist = append(sublist, sub)
+		}
 	}
 
 	// Make sure internal resource version has its 0 value
